@@ -1,4 +1,164 @@
+(* Properties/C14.v — partition-consuming functions depend on the partition, not on label values.
+   Only statements; every proof is `exact <lemma of Proofs/Partition.v>`.
+   Vocabulary: same_part n c c' := forall i j < n, (c i = c j <-> c' i = c' j)   (same partition of 0..n-1);
+   for an injective renaming g, [same_part n ci (g o ci)] holds (C14_injective_same_part), so every
+   `_partition_only` theorem below gives  f W ci == f W (map g ci). *)
 From Coq Require Import QArith List Arith Bool ZArith Lia.
 From BCT Require Import Base.Mat Base.SumQ Base.ListX Model.Partition Proofs.Partition.
-Theorem C14_stub : True. Proof. exact pstub. Qed.
-Print Assumptions C14_stub.
+Import ListNotations.
+Open Scope Q_scope.
+
+(* np.unique(ci, return_inverse=True)+1 keeps the partition (and the order of the labels) *)
+Theorem C14_relabel_injective_invariant : forall n ci (g : Z -> Z), (forall x y, g x = g y -> x = y) ->
+  same_part n (relabel n (fun i => g (ci i))) (relabel n ci) /\ same_part n (relabel n ci) ci.
+Proof. exact relabel_injective_invariant. Qed.
+
+Theorem C14_relabel_canonical : forall n ci i, (i < n)%nat ->
+  (1 <= relabel n ci i <= vmax n (relabel n ci))%nat /\ (relabel n ci i <= n)%nat /\
+  forall j, (j < n)%nat -> (ci i < ci j)%Z -> (relabel n ci i < relabel n ci j)%nat.
+Proof.
+  intros n ci i Hi. split; [exact (relabel_canon n ci i Hi)|]. split; [exact (relabel_le n ci i Hi)|].
+  intros j Hj. exact (relabel_monotone n ci i j Hi Hj).
+Qed.
+
+Theorem C14_injective_same_part : forall n (ci : vec Z) (g : Z -> Z), (forall x y, g x = g y -> x = y) ->
+  same_part n ci (fun i => g (ci i)).
+Proof. exact injective_same_part. Qed.
+
+(* ---- consumers: the result is a function of the partition only ---- *)
+Theorem C14_participation_coef_partition_only : forall n W ci ci' deg_in i, same_part n ci ci' ->
+  participation_coef n W ci deg_in i == participation_coef n W ci' deg_in i.
+Proof. exact participation_coef_partition_only. Qed.
+
+Theorem C14_participation_coef_formula : forall n W ci i, (i < n)%nat ->
+  participation_coef n W ci false i ==
+  (if Qeq_bool (sumQ (fun j => W i j) n) 0 then 0
+   else 1 - sumQ (fun j => sumQ (fun l => W i j * W i l * ind (Z.eqb (ci j) (ci l))) n) n
+            / (sumQ (fun j => W i j) n * sumQ (fun j => W i j) n)).
+Proof. exact participation_coef_formula. Qed.
+
+Theorem C14_participation_coef_sign_partition_only : forall n W ci ci' i, same_part n ci ci' ->
+  fst (participation_coef_sign n W ci) i == fst (participation_coef_sign n W ci') i /\
+  snd (participation_coef_sign n W ci) i == snd (participation_coef_sign n W ci') i.
+Proof. exact participation_coef_sign_partition_only. Qed.
+
+(* (Koi - mean, variance) per node; and Z itself for ANY sqrt that respects == *)
+Theorem C14_module_degree_zscore_partition_only : forall n W ci ci' flag i, same_part n ci ci' -> (i < n)%nat ->
+  fst (module_degree_zscore_parts n W ci flag i) == fst (module_degree_zscore_parts n W ci' flag i) /\
+  snd (module_degree_zscore_parts n W ci flag i) == snd (module_degree_zscore_parts n W ci' flag i).
+Proof. exact module_degree_zscore_partition_only. Qed.
+
+Theorem C14_module_degree_zscore_invariant : forall (sqrt : Q -> Q), (forall a b, a == b -> sqrt a == sqrt b) ->
+  forall n W ci ci' flag i, same_part n ci ci' -> (i < n)%nat ->
+  module_degree_zscore sqrt n W ci flag i == module_degree_zscore sqrt n W ci' flag i.
+Proof. exact module_degree_zscore_invariant. Qed.
+
+Theorem C14_modularity_und_partition_only : forall n A gamma ci ci', same_part n ci ci' ->
+  modularity_und_q n A gamma ci == modularity_und_q n A gamma ci'.
+Proof. exact modularity_und_partition_only. Qed.
+
+Theorem C14_modularity_dir_partition_only : forall n A gamma ci ci', same_part n ci ci' ->
+  modularity_dir_q n A gamma ci == modularity_dir_q n A gamma ci'.
+Proof. exact modularity_dir_partition_only. Qed.
+
+Theorem C14_modularity_und_sign_partition_only : forall n W ci ci' qt, same_part n ci ci' ->
+  modularity_und_sign_q n W ci qt == modularity_und_sign_q n W ci' qt.
+Proof. exact modularity_und_sign_partition_only. Qed.
+
+(* agreement: D[i,j] = number of partitions that put i and j together *)
+Theorem C14_agreement_counts : forall n np_ cis i j, (i < n)%nat -> (j < n)%nat -> i <> j ->
+  agreement n np_ cis i j == sumQ (fun p => ind (Z.eqb (cis p i) (cis p j))) np_.
+Proof. exact agreement_counts. Qed.
+
+Theorem C14_agreement_partition_only : forall n np_ cis cis' i j,
+  (forall p, (p < np_)%nat -> same_part n (cis p) (cis' p)) -> (i < n)%nat -> (j < n)%nat ->
+  agreement n np_ cis i j == agreement n np_ cis' i j.
+Proof. exact agreement_partition_only. Qed.
+
+(* ---- partition_distance, for an abstract log ---- *)
+Section PartitionDistance.
+Variable log : Q -> Q.
+Hypothesis log_proper : forall a b, a == b -> log a == log b.
+
+Theorem C14_partition_distance_symmetric : forall n cx cy,
+  fst (partition_distance log n cx cy) == fst (partition_distance log n cy cx) /\
+  snd (partition_distance log n cx cy) == snd (partition_distance log n cy cx).
+Proof. exact (partition_distance_symmetric log log_proper). Qed.
+
+Theorem C14_partition_distance_partition_only : forall n cx cy cx' cy', same_part n cx cx' -> same_part n cy cy' ->
+  fst (partition_distance log n cx cy) == fst (partition_distance log n cx' cy') /\
+  snd (partition_distance log n cx cy) == snd (partition_distance log n cx' cy').
+Proof. exact (partition_distance_partition_only log log_proper). Qed.
+
+(* same partition up to renaming => VIn = 0, and MIn = 1 unless H(X) = 0 (single block: the code divides 0 by 0,
+   known finding partition_distance:trivial-partition) *)
+Theorem C14_partition_distance_same : forall n cx cy, same_part n cx cy ->
+  fst (partition_distance log n cx cy) == 0 /\
+  (~ Hx_of log n cx == 0 -> snd (partition_distance log n cx cy) == 1).
+Proof. exact (partition_distance_same log log_proper). Qed.
+
+Hypothesis log_incr : forall a b, 0 < a -> a < b -> log a < log b.
+Hypothesis log_1 : log 1 == 0.
+
+Theorem C14_VIn_nonneg : forall n cx cy, (1 < n)%nat -> 0 <= fst (partition_distance log n cx cy).
+Proof. exact (VIn_nonneg log log_proper log_incr log_1). Qed.
+
+Theorem C14_VIn_zero_same : forall n cx cy, (1 < n)%nat ->
+  fst (partition_distance log n cx cy) == 0 -> same_part n cx cy.
+Proof. exact (VIn_zero_same log log_proper log_incr log_1). Qed.
+
+Theorem C14_MIn_one_same : forall n cx cy, (1 < n)%nat -> ~ Hx_of log n cx + Hx_of log n cy == 0 ->
+  snd (partition_distance log n cx cy) == 1 -> same_part n cx cy.
+Proof. exact (MIn_one_same log log_proper log_incr log_1). Qed.
+
+(* the range clause 0 <= VIn <= 1: the lower bound is C14_VIn_nonneg; the upper bound
+   H(X|Y) + H(Y|X) <= log n needs concavity of log (Jensen on finite sums), not derivable from
+   monotonicity alone: NOT proved. Full statement kept visible; the proved half is named _partial. *)
+Definition VIn_range_full_statement : Prop :=
+  forall n cx cy, (1 < n)%nat ->
+    0 <= fst (partition_distance log n cx cy) /\ fst (partition_distance log n cx cy) <= 1.
+Theorem C14_VIn_range_partial : forall n cx cy, (1 < n)%nat -> 0 <= fst (partition_distance log n cx cy).
+Proof. exact (VIn_nonneg log log_proper log_incr log_1). Qed.
+End PartitionDistance.
+
+(* ---- ci2ls / ls2ci ---- *)
+Theorem C14_ci2ls_ls2ci_inverse : forall n ci i, (i < n)%nat -> ls2ci (ci2ls n ci) i = relabel n ci i.
+Proof. exact ci2ls_ls2ci_inverse. Qed.
+
+Theorem C14_ci2ls_blocks : forall n ci u i, (u < vmax n (relabel n ci))%nat ->
+  (In i (nth u (ci2ls n ci) []) <-> (i < n)%nat /\ relabel n ci i = S u).
+Proof. exact ci2ls_blocks. Qed.
+
+(* non-vacuity: a non-monotone injective renaming permutes the block order, the consumers do not move *)
+Example C14_nonvacuous :
+  let ci := of_list 0%Z [5; 5; 9; 2]%Z in
+  let g := fun z => (100 - 3 * z)%Z in
+  let W := of_rows 0 [[0; 1; 2; 0]; [1; 0; 0; 3]; [2; 0; 0; 1]; [0; 3; 1; 0]]%list in
+  to_list 4 (relabel 4 ci) = [2; 2; 3; 1]%nat%list /\
+  to_list 4 (relabel 4 (fun i => g (ci i))) = [2; 2; 1; 3]%nat%list /\
+  Qred (participation_coef 4 W ci false 0%nat) = 4 # 9 /\
+  Qred (participation_coef 4 W (fun i => g (ci i)) false 0%nat) = 4 # 9.
+Proof. vm_compute. repeat split; reflexivity. Qed.
+
+Print Assumptions C14_relabel_injective_invariant.
+Print Assumptions C14_relabel_canonical.
+Print Assumptions C14_injective_same_part.
+Print Assumptions C14_participation_coef_partition_only.
+Print Assumptions C14_participation_coef_formula.
+Print Assumptions C14_participation_coef_sign_partition_only.
+Print Assumptions C14_module_degree_zscore_partition_only.
+Print Assumptions C14_module_degree_zscore_invariant.
+Print Assumptions C14_modularity_und_partition_only.
+Print Assumptions C14_modularity_dir_partition_only.
+Print Assumptions C14_modularity_und_sign_partition_only.
+Print Assumptions C14_agreement_counts.
+Print Assumptions C14_agreement_partition_only.
+Print Assumptions C14_partition_distance_symmetric.
+Print Assumptions C14_partition_distance_partition_only.
+Print Assumptions C14_partition_distance_same.
+Print Assumptions C14_VIn_nonneg.
+Print Assumptions C14_VIn_zero_same.
+Print Assumptions C14_MIn_one_same.
+Print Assumptions C14_VIn_range_partial.
+Print Assumptions C14_ci2ls_ls2ci_inverse.
+Print Assumptions C14_ci2ls_blocks.
